@@ -4,7 +4,7 @@ import itertools
 
 from .. import history
 from ..battery import call, _Raised
-from ..observe import observe
+from ..observe import npize, observe
 from .c08 import gen_hypergraph
 
 N_RANDOM = {"quick": 800, "thorough": 40000}
@@ -148,7 +148,8 @@ def undirected_eval(ctx, rng, idx, h, only_line=False):
     combos += [("jaccard", v * f) for v in realised[:4] for f in (1 + 1e-11, 1 - 1e-11) if 0 < v * f <= 1]
     for kind, s in combos:
         for weighted in (False, True):
-            for name, fn in (("function", lambda: pr.line_graph(h, kind, s, weighted)), ("method", lambda: h.to_line_graph(kind, s, weighted))):
+            sv, wv = npize(rng, s), npize(rng, weighted)
+            for name, fn in (("function", lambda: pr.line_graph(h, kind, sv, wv)), ("method", lambda: h.to_line_graph(kind, sv, wv))):
                 if name == "method" and rng.random() < 0.7:
                     continue
                 r = call(fn)
@@ -237,7 +238,8 @@ def directed_eval(ctx, rng, idx, h):
     combos += [("jaccard", v * f) for v in realised[:4] for f in (1 + 1e-11, 1 - 1e-11) if 0 < v * f <= 1]
     for kind, s in combos:
         for weighted in (False, True):
-            r = call(pr.directed_line_graph, h, kind, s, weighted) if rng.random() < 0.7 else call(h.to_line_graph, kind, s, weighted)
+            sv, wv = npize(rng, s), npize(rng, weighted)
+            r = call(pr.directed_line_graph, h, kind, sv, wv) if rng.random() < 0.7 else call(h.to_line_graph, kind, sv, wv)
             if isinstance(r, _Raised):
                 ctx.check("C10:directed-line", False, f"C10:directed_line_graph:raised:{type(r.e).__name__}", lambda: wit((kind, s, r)))
                 continue
